@@ -411,6 +411,51 @@ def strip_generics(path):
 
 
 # --------------------------------------------------------------------------- executor
+_STMT_CACHE = {}
+
+
+def parse_stmt(s):
+    """classify one MIR statement / terminator text once; the result is cached by text"""
+    c0 = s[0]
+    if c0 in 'SnFPARC' and re.match(r'(StorageLive|StorageDead|nop|FakeRead|PlaceMention|AscribeUserType|Retag|Coverage|ConstEvalCounter)', s):
+        return ('skip',)
+    if s == 'return':
+        return ('return',)
+    if s == 'unreachable':
+        return ('unreachable',)
+    m = re.match(r'goto -> (bb\d+)$', s)
+    if m:
+        return ('goto', m.group(1))
+    m = re.match(r'drop\(.*\) -> \[return: (bb\d+), .*\]$', s, re.S)
+    if m:
+        return ('goto', m.group(1))
+    m = re.match(r'switchInt\((.*)\) -> \[(.*)\]$', s, re.S)
+    if m:
+        arms = []
+        for t in split_top(m.group(2)):
+            k, tgt = [x.strip() for x in t.rsplit(':', 1)]
+            arms.append((k if k == 'otherwise' else int(k), tgt))
+        return ('switch', m.group(1), arms, 'otherwise' in m.group(2))
+    m = re.match(r'assert\((!?)(.*?), "(.*)\) -> \[success: (bb\d+), .*\]$', s, re.S)
+    if m:
+        return ('assert', bool(m.group(1)), m.group(2), m.group(3), m.group(4))
+    m = re.match(r'(.*?) = (.*) -> \[return: (bb\d+), unwind.*\]$', s, re.S)
+    sc = split_call(m.group(2).strip()) if m else None
+    if sc:
+        return ('call', m.group(1), sc[0], split_top(sc[1]), m.group(3))
+    m = re.match(r'(.*?) = (.*) -> unwind.*$', s, re.S)
+    sc = split_call(m.group(2).strip()) if m else None
+    if sc:
+        return ('diverge', sc[0], split_top(sc[1]))
+    m = re.match(r'discriminant\((.*)\) = (\d+)$', s)
+    if m:
+        return ('setdiscr',)
+    m = re.match(r'(.*?) = (.*)$', s, re.S)
+    if m:
+        return ('assign', m.group(1), m.group(2))
+    return ('unknown',)
+
+
 class Exec:
     def __init__(self, mir, models, max_depth=40, max_steps=2_000_000, timeout_ms=60000):
         self.mir, self.models, self.max_depth, self.max_steps = mir, models, max_depth, max_steps
@@ -423,6 +468,7 @@ class Exec:
                       'panic_edges_cut': 0}
         self.defs = []         # definitions `name == big term` introduced by define(); part of every final query
         self._def_cache = {}
+        self._model_cache = {}
         self.cut_panics = []   # (pc, where, message): panic side of MIR `assert` terminators that is feasible
         self._closure_by_span = None
 
@@ -448,6 +494,70 @@ class Exec:
             if r == z3.unknown:
                 raise Inconclusive('solver unknown in feasibility check')
         return r == z3.sat
+
+    def bounds(self, st, x):
+        """syntactic unsigned interval [lo, hi] that the path condition imposes on the VARIABLE x (None if x is not a variable);
+        sound by construction: only conjuncts of the form x <=/>=/</>/== numeral are read, everything else is ignored"""
+        if not (is_z3(x) and z3.is_const(x) and x.decl().kind() == z3.Z3_OP_UNINTERPRETED and z3.is_bv(x)):
+            return None
+        lo, hi = 0, (1 << x.size()) - 1
+        work = list(st.pc)
+        while work:
+            c = work.pop()
+            k = c.decl().kind()
+            if k == z3.Z3_OP_AND:
+                work.extend(c.children())
+                continue
+            neg = False
+            if k == z3.Z3_OP_NOT:
+                c = c.arg(0)
+                k = c.decl().kind()
+                neg = True
+            if k == z3.Z3_OP_EQ and not neg:
+                a, b = c.arg(0), c.arg(1)
+                if a.eq(x) and z3.is_bv_value(b):
+                    lo, hi = max(lo, b.as_long()), min(hi, b.as_long())
+                elif b.eq(x) and z3.is_bv_value(a):
+                    lo, hi = max(lo, a.as_long()), min(hi, a.as_long())
+                continue
+            if k not in (z3.Z3_OP_ULEQ, z3.Z3_OP_UGEQ, z3.Z3_OP_ULT, z3.Z3_OP_UGT):
+                continue
+            a, b = c.arg(0), c.arg(1)
+            # normalise to  x OP n
+            if a.eq(x) and z3.is_bv_value(b):
+                n = b.as_long()
+            elif b.eq(x) and z3.is_bv_value(a):
+                n = a.as_long()
+                k = {z3.Z3_OP_ULEQ: z3.Z3_OP_UGEQ, z3.Z3_OP_UGEQ: z3.Z3_OP_ULEQ, z3.Z3_OP_ULT: z3.Z3_OP_UGT, z3.Z3_OP_UGT: z3.Z3_OP_ULT}[k]
+            else:
+                continue
+            if neg:
+                k = {z3.Z3_OP_ULEQ: z3.Z3_OP_UGT, z3.Z3_OP_UGEQ: z3.Z3_OP_ULT, z3.Z3_OP_ULT: z3.Z3_OP_UGEQ, z3.Z3_OP_UGT: z3.Z3_OP_ULEQ}[k]
+            if k == z3.Z3_OP_ULEQ:
+                hi = min(hi, n)
+            elif k == z3.Z3_OP_ULT:
+                hi = min(hi, n - 1)
+            elif k == z3.Z3_OP_UGEQ:
+                lo = max(lo, n)
+            else:
+                lo = max(lo, n + 1)
+        return lo, hi
+
+    def in_table(self, st, x, ranges):
+        """membership of x in sorted disjoint closed ranges, with the table clipped to the interval the path condition confines x to"""
+        from .smt import in_ranges
+        b = self.bounds(st, x)
+        if b is None or (b[0] == 0 and b[1] == (1 << x.size()) - 1):
+            return in_ranges(x, ranges)
+        lo, hi = b
+        if lo > hi:
+            return z3.BoolVal(False)
+        clipped = [(max(int(a), lo), min(int(c), hi)) for a, c in ranges if int(c) >= lo and int(a) <= hi]
+        if not clipped:
+            return z3.BoolVal(False)
+        if len(clipped) == 1 and clipped[0] == (lo, hi):
+            return z3.BoolVal(True)
+        return in_ranges(x, clipped)
 
     def define(self, term, prefix='def'):
         """name a large Boolean term once (hash-consed), so that path conditions stay small"""
@@ -907,10 +1017,16 @@ class Exec:
             self.steps += 1
             if self.steps > self.max_steps:
                 raise Inconclusive('step budget exhausted (unbounded loop?) in ' + fr.body.name)
-            c0 = s[0]
-            if c0 in 'SnFPARC' and re.match(r'(StorageLive|StorageDead|nop|FakeRead|PlaceMention|AscribeUserType|Retag|Coverage|ConstEvalCounter)', s):
+            ps = _STMT_CACHE.get(s)
+            if ps is None:
+                ps = _STMT_CACHE[s] = parse_stmt(s)
+            kind = ps[0]
+            if kind == 'skip':
                 continue
-            if s == 'return':
+            if kind == 'assign':
+                self.write_place(st, fr, ps[1], self.rvalue(st, fr, ps[2]))
+                continue
+            if kind == 'return':
                 v = st.heap.get(fr.locals.get('_0'))
                 if v is None:
                     if fr.body.ret.strip() == '()':
@@ -923,25 +1039,19 @@ class Exec:
                 results.append(Outcome(st, v))
                 self.stats['paths'] += 1
                 return None
-            if s == 'unreachable':
+            if kind == 'unreachable':
                 raise Inconclusive('reached `unreachable` in %s %s' % (fr.body.name, bb))
-            m = re.match(r'goto -> (bb\d+)$', s)
-            if m:
-                return m.group(1)
-            m = re.match(r'drop\(.*\) -> \[return: (bb\d+), .*\]$', s, re.S)
-            if m:
-                return m.group(1)
-            m = re.match(r'switchInt\((.*)\) -> \[(.*)\]$', s, re.S)
-            if m:
-                v = self.operand(st, fr, m.group(1))
+            if kind == 'goto':
+                return ps[1]
+            if kind == 'switch':
+                v = self.operand(st, fr, ps[1])
                 arms, taken = [], []
-                exhaustive = 'otherwise' in m.group(2)
-                for t in split_top(m.group(2)):
-                    k, tgt = [x.strip() for x in t.rsplit(':', 1)]
+                exhaustive = ps[3]
+                for k, tgt in ps[2]:
                     if k == 'otherwise':
                         cond = z3.And(*[z3.Not(c) for c in taken]) if taken else z3.BoolVal(True)
                     else:
-                        kv = int(k)
+                        kv = k
                         if z3.is_bool(v):
                             cond = z3.Not(v) if kv == 0 else v
                         else:
@@ -968,25 +1078,21 @@ class Exec:
                 for cond, tgt in reversed(live):
                     work.append((st.fork(cond), tgt))
                 return None
-            m = re.match(r'assert\((!?)(.*?), "(.*)\) -> \[success: (bb\d+), .*\]$', s, re.S)
-            if m:
-                c = self.operand(st, fr, m.group(2))
-                c = z3.Not(c) if m.group(1) else c
+            if kind == 'assert':
+                c = self.operand(st, fr, ps[2])
+                c = z3.Not(c) if ps[1] else c
                 cs = z3.simplify(c)
                 if not z3.is_true(cs):
                     if self.feasible(st.pc, z3.Not(cs)):
                         self.stats['panic_edges_cut'] += 1
-                        self.cut_panics.append((list(st.pc) + [z3.Not(cs)], '%s %s' % (fr.body.name, bb), m.group(3)[:60]))
+                        self.cut_panics.append((list(st.pc) + [z3.Not(cs)], '%s %s' % (fr.body.name, bb), ps[3][:60]))
                     if not self.feasible(st.pc, cs):
                         return None     # this path always panics here; recorded above
                     st.pc.append(cs)
-                return m.group(4)
-            # call with a return edge
-            m = re.match(r'(.*?) = (.*) -> \[return: (bb\d+), unwind.*\]$', s, re.S)
-            sc = split_call(m.group(2).strip()) if m else None
-            if sc:
-                dst, callee, argtxt, nxt = m.group(1), sc[0], sc[1], m.group(3)
-                args = [self.operand(st, fr, a) for a in split_top(argtxt)]
+                return ps[4]
+            if kind == 'call':
+                dst, callee, argtxts, nxt = ps[1], ps[2], ps[3], ps[4]
+                args = [self.operand(st, fr, a) for a in argtxts]
                 if callee.startswith(('move ', 'copy ')):
                     f = self.operand(st, fr, callee)
                     outs = self.call_value(st, f, args, depth)
@@ -1005,25 +1111,17 @@ class Exec:
                     self.write_place(o.st, fr, dst, o.val)
                     work.append((o.st, nxt))
                 return None
-            # diverging call
-            m = re.match(r'(.*?) = (.*) -> unwind.*$', s, re.S)
-            sc = split_call(m.group(2).strip()) if m else None
-            if sc:
-                callee = sc[0]
-                args = [self.operand(st, fr, a) for a in split_top(sc[1])]
+            if kind == 'diverge':
+                callee = ps[1]
+                args = [self.operand(st, fr, a) for a in ps[2]]
                 outs = self.call(st, fr, callee, args, depth)
                 for o in outs:
                     if not o.panic:
                         raise Inconclusive('diverging call returned: ' + callee)
                     results.append(o)
                 return None
-            m = re.match(r'discriminant\((.*)\) = (\d+)$', s)
-            if m:
+            if kind == 'setdiscr':
                 raise Inconclusive('SetDiscriminant')
-            m = re.match(r'(.*?) = (.*)$', s, re.S)
-            if m:
-                self.write_place(st, fr, m.group(1), self.rvalue(st, fr, m.group(2)))
-                continue
             raise Inconclusive('statement ' + s)
         raise Inconclusive('fell off the end of %s in %s' % (bb, fr.body.name))
 
@@ -1047,11 +1145,16 @@ class Exec:
              ('std::collections::HashSet', 'HashSet'), ('std::collections::BTreeSet', 'BTreeSet')]
 
     def call(self, st, fr, callee, args, depth):
-        for a_, b_ in self._NORM:       # some crates' MIR prints std paths in full
-            if a_ in callee:
-                callee = callee.replace(a_, b_)
-        for pat, fn in self.models:
-            if pat.search(callee):
+        cands = self._model_cache.get(callee)
+        if cands is None:
+            key = callee
+            for a_, b_ in self._NORM:       # some crates' MIR prints std paths in full
+                if a_ in callee:
+                    callee = callee.replace(a_, b_)
+            cands = self._model_cache[key] = (callee, [(pat, fn) for pat, fn in self.models if pat.search(callee)])
+        callee, matching = cands
+        for pat, fn in matching:
+            if True:
                 self.stats['models_used'][pat.pattern] = self.stats['models_used'].get(pat.pattern, 0) + 1
                 r = fn(self, st, fr, callee, args, depth)
                 if r is NotImplemented:
